@@ -394,9 +394,10 @@ class J1939_22:
                 # deadline reached
                 frame_format, session_num, src_address, dst_address = self._buffer_unhash_mpg(bufid)
 
-                self.__send_multi_pg(frame_format, buf['cpg'], src_address, dst_address)
-
+                # take the buffer out first: a group added while the frame is written starts a new one
                 del self._multi_pg_snd_buffer[bufid]
+
+                self.__send_multi_pg(frame_format, buf['cpg'], src_address, dst_address)
 
 
         # check send buffers
